@@ -91,11 +91,27 @@ def handler_env(S, meth, names=None, cls=CLS):
         data = token_data
     if cls == "TextPhase" and meth == "processCharacters":
         data = S.str("token.data")
-    if cls in ("AfterBodyPhase", "AfterAfterBodyPhase") and meth == "processSpaceCharacters":
+    if cls in ("AfterBodyPhase", "AfterAfterBodyPhase", "AfterAfterFramesetPhase") and meth == "processSpaceCharacters":
         data = S.str("token.data")
+    if cls in FRAMESET_MODES and meth == "processCharacters":
+        data = S.one_of(*FRAMESET_CHARACTER_DATA)
     token = S.dict({"type": 4 if meth.startswith("endTag") else 3, "name": tname, "data": data,
                     "selfClosing": S.bool("selfClosing"), "selfClosingAcknowledged": False})
     return dict(self=me, token=token)
+
+
+FRAMESET_MODES = ("InFramesetPhase", "AfterFramesetPhase", "AfterAfterFramesetPhase")
+# character tokens that mix space characters with others (the tokenizer emits all-space runs as separate tokens)
+FRAMESET_CHARACTER_DATA = ("a", "a b", " a", "a\t\n", "a \x0c\rb c", "ab")
+SPACE = " \t\n\x0c\r"
+
+
+def only_spaces(data):
+    out = ""
+    for ch in data:
+        if ch in SPACE:
+            out = out + ch
+    return out
 
 
 def ops_are(self, want):
@@ -987,3 +1003,25 @@ AFTER_AFTER_BODY = [
 
 for _m, _names, _fn in AFTER_AFTER_BODY:
     globals()["AfterAfterBody_" + _m] = _mk(_m, _names, _fn, "AfterAfterBodyPhase")
+
+
+# ------------------------------------------------------------- character tokens in the frameset modes
+# in frameset / after frameset: a space character is inserted, any other character is a parse error and ignored
+def spec_fs_characters(old, self, token, result):
+    keep = only_spaces(token["data"])
+    return result is None and ops_are(self, [("text", keep)] if keep else []) and grew_by(old, self, 0)
+
+
+# after after frameset: space characters go through the in-body rules (the mode's own whitespace handler, which
+# the AfterAfterBody_processSpaceCharacters-style contract covers), any other character is ignored
+def spec_aafs_characters(old, self, token, result):
+    keep = only_spaces(token["data"])
+    return (result is None and grew_by(old, self, 0)
+            and ops_are(self, [("call", "processSpaceCharacters", None)] if keep else []))
+
+
+InFrameset_processCharacters = _mk("processCharacters", None, spec_fs_characters, "InFramesetPhase")
+AfterFrameset_processCharacters = _mk("processCharacters", None, spec_fs_characters, "AfterFramesetPhase")
+AfterAfterFrameset_processCharacters = _mk("processCharacters", None, spec_aafs_characters, "AfterAfterFramesetPhase")
+AfterAfterFrameset_processSpaceCharacters = _mk("processSpaceCharacters", None, spec_ab_space,
+                                                "AfterAfterFramesetPhase")
